@@ -77,6 +77,11 @@ func (p *c17) build(seed uint64, tier string) []SendScenario {
 					if r.Chance(1, 2) {
 						s.Server.TLS.Version = sim.Pick(r, []string{"1.2", "1.3"})
 					}
+					if r.Chance(1, 4) {
+						// without the NOOP probe the operation's own first command is the one that
+						// meets the silent peer
+						s.Client.NoNoop = true
+					}
 					if r.Chance(1, 3) {
 						// the caller's context has a deadline of its own, later than the configured
 						// timeout: the bound stays the configured timeout
@@ -178,6 +183,13 @@ func (p *c17) build(seed uint64, tier string) []SendScenario {
 					s.Server.TLS.Cert = "stall"
 					out = append(out, s)
 				}
+				// the peer never answers the dial function itself (a dialer that negotiates before
+				// it returns): the only bound it has is the context the Client hands it
+				if op == "dial" || op == "dialandsend" {
+					s := base("dial-function-blocks")
+					s.DialBlocks = true
+					out = append(out, s)
+				}
 				// the server stops reading
 				if op == "dialandsend" || op == "send" {
 					// ... right after its 354: the content (of any size relative to the client's
@@ -267,6 +279,9 @@ func (p *c17) Exec(t *testing.T, scAny any) Outcome {
 				ts = v
 			}
 		}
+	}
+	if sc.DialBlocks && run.Env.Dials > 0 {
+		ts = run.Env.DialBlockedAt
 	}
 	out.Key = sc.Op + "|" + sc.Client.TLSPolicy + "|" + sc.Client.AuthType + "|" + sc.Label
 	if ts < 0 {
